@@ -38,19 +38,21 @@ type workload struct {
 	resend   int // percent of outgoing packets that repeat a recently sent sequence number (retransmission without RTX)
 	failW    bool // the next writer of local stream 1 fails every write, the one of stream 0 every 7th
 	rtcpHeavy bool // feedback read and application RTCP written on EVERY packet step (2 packets each)
+	inBurst   int  // every 1000 steps this many extra in-order packets arrive on remote stream 0 at one instant
 }
 
 var workloads = []workload{
-	{"in-order+feedback", 0, 0, false, true, 0, 0, false, false},
-	{"in-order/no-feedback", 0, 0, false, false, 0, 0, false, false},
-	{"loss5+feedback", 5, 0, false, true, 0, 0, false, false},
-	{"loss5/no-feedback", 5, 0, false, false, 0, 0, false, false},
-	{"dup+reorder+feedback", 2, 5, true, true, 0, 0, false, false},
-	{"dup+reorder/no-feedback", 2, 5, true, false, 0, 0, false, false},
-	{"resend10+feedback", 0, 0, false, true, 0, 10, false, false},
-	{"resend10/no-feedback", 0, 0, false, false, 0, 10, false, false},
-	{"next-writer-fails+feedback", 0, 0, false, true, 0, 0, true, false},
-	{"rtcp-on-every-step", 0, 0, false, true, 0, 0, false, true},
+	{"in-order+feedback", 0, 0, false, true, 0, 0, false, false, 0},
+	{"in-order/no-feedback", 0, 0, false, false, 0, 0, false, false, 0},
+	{"loss5+feedback", 5, 0, false, true, 0, 0, false, false, 0},
+	{"loss5/no-feedback", 5, 0, false, false, 0, 0, false, false, 0},
+	{"dup+reorder+feedback", 2, 5, true, true, 0, 0, false, false, 0},
+	{"dup+reorder/no-feedback", 2, 5, true, false, 0, 0, false, false, 0},
+	{"resend10+feedback", 0, 0, false, true, 0, 10, false, false, 0},
+	{"resend10/no-feedback", 0, 0, false, false, 0, 10, false, false, 0},
+	{"next-writer-fails+feedback", 0, 0, false, true, 0, 0, true, false, 0},
+	{"rtcp-on-every-step", 0, 0, false, true, 0, 0, false, true, 0},
+	{"incoming-bursts+feedback", 0, 0, false, true, 0, 0, false, false, 700},
 }
 
 // backlogWorkload keeps the pacing interceptor's queue non-empty for the whole run: the pacer
@@ -286,6 +288,12 @@ func (d *driver) runSteps(n int, wl workload) {
 		if !d.single {
 			d.incoming(1, wl)
 		}
+		if wl.inBurst > 0 && d.step%1000 == 0 {
+			// far more packets between two reports than one report can name
+			for k := 0; k < wl.inBurst; k++ {
+				d.incoming(0, wl)
+			}
+		}
 		if wl.rtcpHeavy {
 			d.feedback(2)
 		} else if wl.feedback && d.step%100 == 0 {
@@ -404,6 +412,9 @@ func fbClass(wl workload) string {
 	}
 	if wl.failW {
 		s += "/next-writer-fails"
+	}
+	if wl.inBurst > 0 {
+		s += "/incoming-bursts"
 	}
 	return s
 }
